@@ -144,6 +144,10 @@ def x_history(ctx, case):
                     reactor.callLater(t, lambda: None)
                 for n in range(run.get("selectables", 0)):
                     reactor.addReader(Sel(n))
+                if run.get("slow_work"):
+                    def slow(amount=run["slow_work"][1]):
+                        reactor.rightNow += amount       # slow synchronous work: nothing else runs meanwhile
+                    reactor.callLater(run["slow_work"][0], slow)
                 if isinstance(run.get("stop_at"), (int, float)):
                     def stopper(run=run):
                         # slow synchronous work (the clock moves on while nothing else gets to run),
@@ -225,7 +229,14 @@ def x_history(ctx, case):
             stopped = want == ("raise", "NoResultError")
             if stopped and case.get("iterating") and run.get("slow_stop"):
                 horizon = t_end + run["slow_stop"]   # _clean()'s reactor iterations run what is overdue by then
+            sw = run.get("slow_work")
+            if sw and sw[0] < t_end:
+                # everything that had become due by the end of the slow work ran in the same reactor pass
+                # (in time order) as the deciding event
+                horizon = max(horizon, sw[0] + sw[1])
             leftovers = sum(1 for t in run.get("junk", []) if t > horizon) + run.get("selectables", 0)
+            if sw and sw[0] > t_end:
+                leftovers += 1
             if stopped and run["timeout"] > horizon and not (horizon > t_end and expected.tf <= horizon):
                 # the timeout call itself is still pending (unless the function's Deferred completed
                 # during the clean-up iterations, which cancels it)
@@ -234,7 +245,7 @@ def x_history(ctx, case):
                 leftovers += 1
             if f["kind"] == "chain":
                 leftovers += (1 if f["t"] > horizon else 0) + (1 if f["t"] + f["t2"] > horizon else 0)
-            if isinstance(run.get("stop_at"), (int, float)) and run["stop_at"] > t_end:
+            if isinstance(run.get("stop_at"), (int, float)) and run["stop_at"] > max(t_end, horizon if sw else t_end):
                 leftovers += 1
             junk = spinner.get_junk()
             ctx.check(bool(junk) == bool(leftovers), "junk.reported-and-refused-until-cleared",
@@ -390,6 +401,21 @@ def run(ctx):
                                                      dict(b, clear_junk=True), dict(b, clear_junk=True)]})
     ctx.note_space("iterating / plain Spinner interrupted after slow synchronous work (5 functions x 5 (instant, "
                    "duration) pairs), then reused twice", n)
+    # slow synchronous work that straddles the timeout and the instant the Deferred fires: both calls
+    # become due in one reactor pass and run in time order - the earlier one decides
+    n = 0
+    for f in ({"kind": "fire_at", "t": 1.5, "v": "late"}, {"kind": "fail_at", "t": 1.5, "exc": "KeyError"},
+              {"kind": "fire_at", "t": 0.5, "v": "early"}, {"kind": "chain", "t": 0.5, "t2": 1.0, "v": [3]}):
+        for T in (1.0, 2.0):
+            for sw in ((0.25, 0.5), (0.25, 3.0), (0.75, 3.0)):
+                for iterating in (False, True):
+                    if ctx.mine():
+                        n += 1
+                        ctx.execute("history", {"iterating": iterating, "runs": [
+                            {"f": f, "timeout": T, "slow_work": list(sw)},
+                            {"f": {"kind": "ret", "v": 42}, "timeout": 1.0, "clear_junk": True}]})
+    ctx.note_space("slow synchronous work straddling timeout and firing instant: 4 functions x 2 timeouts x 3 x "
+                   "plain/iterating Spinner, then a second run", n)
     ctx.notes["random_cases"] = True
     grid = list(grid_runs())
     for i in range(ctx.scale(8000, 300000)):
